@@ -1493,6 +1493,11 @@ where
         if timestamp.saturating_sub(now.as_millis()) > MAX_TIME_DELTA.as_millis() as u64 {
             return Err(session::Error::InvalidTimestamp(timestamp));
         }
+        // Don't allow a zero timestamp, it is reserved as the "no timestamp" value
+        // and is not accepted by the gossip store.
+        if timestamp == Timestamp::MIN {
+            return Err(session::Error::InvalidTimestamp(timestamp));
+        }
 
         // We don't process announcements from nodes we don't know, since the node announcement is
         // what provides DoS protection.
